@@ -46,6 +46,7 @@ OBLIGATION_KINDS = [
     (r'cannot show invariant holds', 'inv'),
     (r'recommendation not met', 'recommends'),
 ]
+SMALL_EDIT = 4
 RLIMIT_RE = re.compile(r'[Rr]esource limit|rlimit')
 
 TRUST_PATTERNS = [r'\bassume\s*\(', r'\badmit\s*\(', r'external_body', r'assume_specification', r'verifier::external\b',
@@ -216,6 +217,25 @@ def verify_unit_once(unit, info, repo, workdir, seed=None, rlimit_mult=1, modes=
             # span in vstd (e.g. failed postcondition of a vstd trait spec): use a secondary span in our file
             mine = [s for s in d.get('spans', []) if os.path.basename(s.get('file_name', '')) == os.path.basename(path)]
             ln = mine[0]['line_start'] - 1 if mine else None
+        # attribute the failure to an extracted region where possible: for a failed precondition the primary span can be the
+        # `requires` clause of a template-level specification (e.g. `requires false` of a panic function) while the call site,
+        # which lies inside the region, is a secondary span
+        if ln is None or ln >= len(a['linemap']) or a['linemap'][ln][0] is None:
+            allspans = []
+            for sp0 in d.get('spans', []):
+                sp = sp0
+                while sp:                      # a span produced by a macro (assert_eq!) carries its call site in `expansion`
+                    allspans.append(sp)
+                    sp = (sp.get('expansion') or {}).get('span')
+            for sp in allspans:
+                if os.path.basename(sp.get('file_name', '')) != os.path.basename(path):
+                    continue
+                l2 = sp['line_start'] - 1
+                if l2 < len(a['linemap']) and a['linemap'][l2][0] is not None:
+                    if ln is not None and ln < len(lines) and not any(x.get('label') for x in sec):
+                        sec = sec + [{'label': 'failed clause', 'text': [{'text': lines[ln]}]}]
+                    ln = l2
+                    break
         fn = fnidx[ln] if ln is not None and ln < len(fnidx) else None
         if kind is None:
             frontend.append('%s%s' % (msg, (' at %s' % lines[ln].strip()) if ln is not None and ln < len(lines) else ''))
@@ -240,6 +260,7 @@ def verify_unit_once(unit, info, repo, workdir, seed=None, rlimit_mult=1, modes=
             'source_file': reg['source_file'] if reg else None, 'source_line': reg['line'] if reg else None,
             'source_sha256': reg['sha256'] if reg else None,
             'changed_since_baseline': reg['changed_since_baseline'] if reg else None,
+            'change_size': reg.get('change_size') if reg else None,
             'rendered': d.get('rendered', '')})
     if frontend:
         # the verifier did not get to (or through) verification: nothing it reported is a decided obligation
@@ -536,6 +557,15 @@ def report(prop, tier, seed, results, extra, wall):
     # contracts: when it is the only thing that fails in a function, every pre/postcondition, invariant, overflow and panic check of
     # that function was still discharged (Verus assumes a failed assert and goes on).  Such a failure is treated like a fallback: a
     # VIOLATION only with a concrete failing execution of the real code, otherwise UNDECIDED.
+    # Large rewrites.  The contract lines of a function whose text changed are transplanted by alignment.  After a small edit (at most
+    # SMALL_EDIT changed / added / removed lines: the typical operator, constant, index or condition change) loop invariants and
+    # proof hints still sit where they belong, and a failed obligation is reported as the brief prescribes, with or without a failing
+    # input.  After a larger rewrite a failure may be an artefact of the transplant (an invariant that now talks about a hoisted
+    # local, a ghost update after the wrong statement), so it is reported only with a concrete failing execution of the real code.
+    for f in violations:
+        if f.get('changed_since_baseline') and (f.get('change_size') or 0) > SMALL_EDIT and not f.get('counterexample') and not f.get('fallback'):
+            f['fallback'] = 'large_rewrite'
+            f['message'] = f['message'] + ' (after a rewrite of %d lines of this function)' % f['change_size']
     by_fn = {}
     for f in violations:
         by_fn.setdefault((f['unit'], f['function']), []).append(f)
